@@ -63,8 +63,8 @@ def sweep_cases(rng, tmpdir):
     fz_setup = vd_setup + ['vd 0 set_fz0_vector 0 %s %s' % (z(75 + 1j), z(75 + 2j)), 'vd 0 set_fz0_vector 1 %s %s' % (z(80 + 1j), z(80 + 2j))]
     G.append(('vnadata-fz0', fz_setup, [(l, (e,), False) for l, e in bad if ' get_fz0' not in l or ' -1' in l or ' 2 ' in l or ' 3' in l or '1000000' in l], 'vd 0 digest',
               ['vd 0 get_fz0 1 1', 'vd 0 set_z0 0 %s' % z(50), 'vd 0 free', 'vd 1 free']))
-    # vnadata_init starts by emptying the object: a refused init leaves it empty but usable (C11: "can still be queried, re-initialised, saved and freed")
-    G.append(('vnadata-init', vd_setup, [(l, (e,), False) for l, e in init_bad], None,
+    # a refused vnadata_init leaves the object as it was
+    G.append(('vnadata-init', vd_setup, [(l, (e,), False) for l, e in init_bad], 'vd 0 digest',
               ['vd 0 digest', 'vd 0 init 1 1 1 1', 'vd 0 set_cell 0 0 0 %s' % z(0.5), 'vd 0 savestr ' + h('x.npd'), 'vd 0 free', 'vd 1 free']))
     # a Touchstone save that is refused leaves the object and its settings as they were
     G.append(('vnadata-save', vd_setup + ['vd 0 set_format ' + h('Sri,Zri')],
@@ -153,8 +153,8 @@ def run(chk):
             lines = list(setup) + [dg]
             idx = []
             for (pl, classes, silent) in probes:
-                lines += [pl, dg]
-                idx.append(len(lines) - 2)
+                lines += [pl, 'errmsg', dg]
+                idx.append(len(lines) - 3)
             i_reuse = len(lines)
             lines += reuse + ['cal live']
             out, rc, err = vlib.run_lines(exe, lines, timeout=600)
@@ -176,7 +176,7 @@ def run(chk):
                     continue
                 if ok:
                     chk.violation('accepted-' + name, '`%s` was accepted (%s) although its arguments are invalid' % (pl[:110], out[i][:50]), rep)
-                    ref = out[i + 1]
+                    ref = out[i + 2]
                     continue
                 if e not in classes:
                     chk.violation('errno-' + name, '`%s` failed with errno %s, documented class %s' % (pl[:110], e, '/'.join(classes)), rep)
@@ -187,9 +187,16 @@ def run(chk):
                 if not silent and cbe != 1:
                     chk.violation('callback-' + name, '`%s` failed and called the error function %d times (expected exactly once)' % (pl[:110], cbe), rep)
                     continue
-                if out[i + 1] != ref:
-                    chk.violation('changed-' + name, '`%s` was refused but changed the object: %s -> %s' % (pl[:110], ref[:150], out[i + 1][:150]), rep)
-                    ref = out[i + 1]
+                if not silent:
+                    # vnaerr(3): the message is one line
+                    w_ = out[i + 1].split()
+                    msg_ = bytes.fromhex(w_[1][1:]).decode('utf-8', 'replace') if len(w_) > 1 and w_[1].startswith('x') else ''
+                    if '\n' in msg_ or not msg_.strip():
+                        chk.violation('message-' + name, '`%s` failed with the message %r (expected one non-empty line)' % (pl[:110], msg_[:160]), rep)
+                        continue
+                if out[i + 2] != ref:
+                    chk.violation('changed-' + name, '`%s` was refused but changed the object: %s -> %s' % (pl[:110], ref[:150], out[i + 2][:150]), rep)
+                    ref = out[i + 2]
                     continue
                 chk.count('refused_clean_' + name)
                 chk.distinct.add((name, pl[:60]))
